@@ -1410,6 +1410,13 @@ def _minmax_fn(rec):
             if l is None or l <= rec["argc"] or rec["locals"][l].get("n"):
                 return o
             ds = defs.get(l, [])
+            if len(ds) == 1 and ds[0].get("k") == "call" and len(ds[0].get("a") or []) == 1 and \
+                    re.search(r"From<[ui](8|16|32|64|128|size)>(>| for [ui](8|16|32|64|128|size)>)::from$", ds[0]["f"].get("p") or ""):
+                a0 = ds[0]["a"][0]
+                if isinstance(a0, dict) and "k" in a0:
+                    return a0       # `u128::from(LIMIT)`: a widened constant is that constant
+                o = a0
+                continue
             if len(ds) != 1 or ds[0].get("k") != "=":
                 return o
             rv = ds[0]["rv"]
